@@ -606,7 +606,7 @@ pub fn run(ctx: &Ctx, rep: &Report) -> Meta {
     }
     let ab = all_bits_cases(ctx.seed, ctx.tier);
     par_items(ctx, rep, "all-bit-flips", &ab, |c| check(rep, "all-bit-flips", c));
-    run_cases(ctx, rep, "edits", ctx.tier.pick(96, 1000), 100, strat, |c| check(rep, "edits", c));
+    run_cases(ctx, rep, "edits", ctx.tier.pick(96, 480), 100, strat, |c| check(rep, "edits", c));
     Meta {
         rule: "honest blind run (L = 0..4 signer messages, M = 0..3 committed) then group 1: every single-bit flip of the commitment octets (all bits for the all-bit-flips runs, 64 sampled otherwise), \
                point/proof of different runs, proof for other messages, other suite, whole-scalar removal / duplication / insertion / truncation / extension at every position -> blind_sign must return Err; \
